@@ -31,6 +31,19 @@ def run(ctx):
     kept, terms = pc.run_lockstep(ctx, exe, cases)
     nn = 12 if ctx.quick else 150
     ncases = [pc.gen_native(r, exceptions=False) for _ in range(nn)]
+    # saturation probes: a fast serial stage feeding a slow stage whose limit equals the pool size (the calling thread helps once the
+    # generator is done, so numT + 1 threads meet numT slots)
+    for numT in (2, 3, 4):
+        for extra in (0, 1):
+            c = pc.gen_native(r, exceptions=False)
+            proto = dict(c['stages'][0])
+            proto.update({'drops': [], 'throws': []})
+            st = [dict(proto, kind='p', limit=1), dict(proto, kind='p', limit=numT)]
+            if extra:
+                st.append(dict(proto, kind='p', limit=1))
+            st[-1]['kind'] = 's'
+            c.update({'numT': numT, 'plf': 32 * numT, 'glimit': 1, 'n': 30, 'gthrow': -1, 'bare': 0, 'stages': st})
+            ncases.append(c)
     nkept, nterms = pc.run_native(ctx, exe, ncases, 2)
     ctx.cov['evaluations'] += len(cases) + len(nkept)
     distinct = set(o.split('| fin')[0] for c, p, o in kept if len(p['steps']) > 20)
